@@ -904,3 +904,21 @@ Proof.
   - apply count2_sym. apply xorb_comm.
   - f_equal; apply count2_sym; [apply andb_comm|apply orb_comm].
 Qed.
+
+(* product quantiser: the distance between two quantised points is symmetric whenever the
+   per-sub-vector term is, in particular for both metrics the quantiser uses *)
+Lemma pq_sum_sym : forall f, (forall i a b, f i a b = f i b a) ->
+  forall i ca cb, pq_sum f i ca cb = pq_sum f i cb ca.
+Proof.
+  intros f Hf i ca. revert i. induction ca as [|a ca IH]; intros i cb; destruct cb as [|b cb]; simpl; try reflexivity.
+  rewrite (Hf i a b), (IH (S i) cb). reflexivity.
+Qed.
+Lemma pq_dfn_sym : forall metric xs ys, pq_dfn metric xs ys = pq_dfn metric ys xs.
+Proof.
+  intros metric xs ys. unfold pq_dfn, negdot. destruct (metric =? 1)%N.
+  - rewrite dot_sym. reflexivity.
+  - apply sqeuclid_sym.
+Qed.
+Lemma pq_point_dist_sym : forall metric sl k cents ca cb,
+  pq_point_dist metric sl k cents ca cb = pq_point_dist metric sl k cents cb ca.
+Proof. intros. unfold pq_point_dist. apply pq_sum_sym. intros. apply pq_dfn_sym. Qed.
